@@ -148,6 +148,8 @@ module N :
   val of_nat : nat -> n
  end
 
+val tl : 'a1 list -> 'a1 list
+
 val nth : nat -> 'a1 list -> 'a1 -> 'a1
 
 val nth_error : 'a1 list -> nat -> 'a1 option
@@ -688,6 +690,10 @@ val resp_acks : resp -> str list
 
 val is_blocking_pull : str list -> (str * str) option
 
+val split_on_tok : str -> str list -> str list list
+
+val intersperse : str -> str list -> str list
+
 val ep_prefix : str
 
 val parse_outcome : str -> outcome option
@@ -715,6 +721,10 @@ val push_rounds :
 val dedup_sorted : n list -> n list
 
 val sorted_registry : server -> (name * str) list
+
+val run_seq_parts :
+  server -> n list -> str list -> str list -> ((server * n list) * str
+  list) * str
 
 val run_lines :
   server -> n list -> str list -> (n * str) list -> (n * outcome list) list
